@@ -83,7 +83,7 @@ class Mask:
         self.op, self.vec = op, vec
 
     def complement(self):
-        return Mask({"le": "gt", "gt": "le", "eq": "ne", "ne": "eq"}[self.op], self.vec)
+        return Mask({"le": "gt", "gt": "le", "eq": "ne", "ne": "eq"}.get(self.op, "not-" + self.op), self.vec)
 
     def __eq__(self, o):
         return isinstance(o, Mask) and self.op == o.op and self.vec == o.vec
@@ -95,7 +95,7 @@ class Mask:
         return hash(("Mask", self.op, self.vec))
 
     def __repr__(self):
-        return "[%r %s 0]" % (self.vec, {"le": "<=", "gt": ">", "eq": "==", "ne": "!="}[self.op])
+        return "[%r %s 0]" % (self.vec, {"le": "<=", "gt": ">", "eq": "==", "ne": "!="}.get(self.op, self.op))
 
 
 class Sel:
@@ -152,6 +152,15 @@ class AlwaysRaises(_EngineAlwaysRaises):
         Exception.__init__(self, what)
         self.node = node
         self.sure = sure
+
+
+class RaiseRec(tuple):
+    """(raise node, sure?) of one raising trace plus the integer facts / function it happened in."""
+
+    def __new__(cls, node, sure, facts=None, func=None):
+        t = tuple.__new__(cls, (node, sure))
+        t.facts, t.func = facts, func
+        return t
 
 
 class SymV:
@@ -217,6 +226,7 @@ class FHInterp(Interp):
         self._keying = set()
         self.last_raise = None
         self._raise_log = [[]]  # per interpreted function: (raise node or None, sure?) of every raising trace
+        self.partial_rejections = []  # RaiseRec of callee traces that raised while sibling traces returned
         self._acc = []  # per enclosing for-loop: {list name: (appended value, iterable, unconditional?)}
 
     # ------------------------------------------------------------------ objects
@@ -249,6 +259,7 @@ class FHInterp(Interp):
         normal = [(s, o[1] if o[0] == "return" else K(None)) for s, o in traces if o[0] in ("return", "fall")]
         if not normal:
             raise AlwaysRaises(log[-1][0] if log else None, fn.name, bool(log) and all(f for _, f in log))
+        self.partial_rejections.extend(log)
         groups = []
         for s, v in normal:
             for g in groups:
@@ -277,6 +288,7 @@ class FHInterp(Interp):
             log = self._raise_log.pop()
         if isinstance(r, Opq) and r.tag.startswith("never-returns:"):  # older engine
             raise AlwaysRaises(log[-1][0] if log else None, r.tag[14:], bool(log) and all(f for _, f in log))
+        self.partial_rejections.extend(log)
         return r
 
     def instantiate(self, cls, args, kwargs, st, frame, callnode=None):
@@ -318,10 +330,10 @@ class FHInterp(Interp):
         except AlwaysRaises as exc:
             inner = exc.sure and exc.node is not None
             sure = inner and self.guards_decided(node, st, frame)
-            self._raise_log[-1].append((exc.node, sure))
+            self._raise_log[-1].append(RaiseRec(exc.node, sure, st.facts.copy(), frame.func))
             return [(st, ("raise", exc.node, sure, inner))]
         except _EngineAlwaysRaises:
-            self._raise_log[-1].append((None, False))
+            self._raise_log[-1].append(RaiseRec(None, False, st.facts.copy(), frame.func))
             return [(st, ("raise", None, False))]
 
     def guards_decided(self, node, st, frame):
@@ -347,7 +359,7 @@ class FHInterp(Interp):
         if isinstance(node, ast.Raise):
             self.last_raise = node
             sure = self.guards_decided(node, st, frame)
-            self._raise_log[-1].append((node, sure))
+            self._raise_log[-1].append(RaiseRec(node, sure, st.facts.copy(), frame.func))
             return [(st, ("raise", node, sure))]
         if isinstance(node, ast.ImportFrom):
             mod = frame.module._abs(node.level, node.module)
@@ -524,7 +536,8 @@ class FHInterp(Interp):
                 return {"builtins.NoneType"}
             return {"builtins." + type(v.v).__name__}
         if isinstance(v, (Vec, Sel)):
-            return {"pandas.Int64Index"}
+            # an integer index: the quantifier covers Int64Index and RangeIndex (tests that tell them apart split)
+            return {"pandas.Int64Index", "pandas.RangeIndex"} if isinstance(v, Vec) else {"pandas.Int64Index"}
         if isinstance(v, Rng):
             return {"numpy.ndarray"}
         if isinstance(v, Mask):
@@ -718,6 +731,15 @@ class FHInterp(Interp):
                 return Sel(b.base.shift(as_lin_val(a)), b.mask)
         return Interp.binop(self, op, a, b, st)
 
+    def slice(self, base, lo, hi, st):
+        base = self.undelegate(base)
+        if isinstance(base, Vec) and hi is None and isinstance(lo, Opq) and lo.tag == "argmax" and len(lo.args) == 1 \
+                and isinstance(lo.args[0], Mask):
+            # values[mask.argmax():] -- "from the first True on"; argmax of an all-False mask is 0 (numpy), so this is
+            # the whole vector when nothing is selected.  Kept as a selection with its own mask form.
+            return Sel(base, Mask("from-first-" + lo.args[0].op, lo.args[0].vec))
+        return Interp.slice(self, base, lo, hi, st)
+
     def index(self, base, idx, e, st, frame):
         base = self.undelegate(base)
         if isinstance(base, Alt):
@@ -829,6 +851,14 @@ class FHInterp(Interp):
             return AllV(args[0])
         if ext in ("numpy.logical_not", "numpy.invert") and len(args) == 1 and isinstance(args[0], Mask):
             return args[0].complement()
+        if ext == "numpy.argmax" and len(args) == 1 and not kwargs and isinstance(args[0], Mask):
+            return Opq("argmax", args)
+        if ext in ("numpy.asarray", "numpy.array", "numpy.asanyarray") and args and isinstance(args[0], TV):
+            # container conversion; with a dtype it is a *cast* (numpy casts floats to ints by truncation, silently)
+            dtype = kwargs.get("dtype", args[1] if len(args) > 1 else None)
+            if dtype is None or dtype == K(None):
+                return TV("numpy.ndarray", "asarray", [args[0]])
+            return TV("numpy.ndarray", "cast", [args[0], dtype])
         if ext in ("pandas.Int64Index", "pandas.Index") and args:
             a = args[0]
             if isinstance(a, (Vec, Sel)):
@@ -865,7 +895,11 @@ class FHInterp(Interp):
                     return recv
                 if meth in ("max", "min") and not args and isinstance(recv, Vec) and recv.sorted and not recv.neg:
                     return recv.elem("last" if meth == "max" else "first")
+            if isinstance(recv, TV) and meth == "astype" and args:
+                return TV(recv.kind, "cast", [recv, args[0]])
             if isinstance(recv, Mask):
+                if meth == "argmax" and not args and not kwargs:
+                    return Opq("argmax", [recv])
                 if meth == "sum" and not args:
                     return Cnt(recv)
                 if meth == "all" and not args:
